@@ -825,6 +825,9 @@ func (cl *cluster) oracle(hist []string) {
 type clusterModel struct{}
 
 func (clusterModel) Exec(scenario string, hist []string) vc.BFSState {
+	if strings.HasPrefix(scenario, "observer") {
+		return obsExec(scenario, hist)
+	}
 	var st vc.BFSState
 	x := vsched.Run(vsched.RunOpts{MaxSteps: 3000000}, func() {
 		n, budget, faults := clParse(scenario)
